@@ -15,6 +15,7 @@ package main
 
 import (
 	"fmt"
+	"math"
 	"os"
 	"strconv"
 	"strings"
@@ -166,6 +167,42 @@ func gapCorpus(r *hx.Run) {
 	}
 }
 
+// extremeCounterCorpus: Set to the ends of the int range from a value of the opposite sign, with sleepers whose
+// conditions become true (the distance between old and new value does not fit an int).
+func extremeCounterCorpus(r *hx.Run) {
+	type sc struct {
+		v0    int
+		waits []arrival
+		set   int
+	}
+	for i, c := range []sc{
+		{-3, []arrival{{t: 0, op: "above", arg: "0"}, {t: 1, op: "above", arg: "2"}}, math.MaxInt},
+		{3, []arrival{{t: 0, op: "below", arg: "1"}, {t: 1, op: "below", arg: "0"}}, math.MinInt},
+		{5, []arrival{{t: 0, op: "below", arg: "1"}, {t: 1, op: "below", arg: "-2"}}, math.MinInt + 2},
+		{-5, []arrival{{t: 0, op: "above", arg: "1"}, {t: 1, op: "above", arg: "-1"}}, math.MaxInt - 1},
+		{math.MaxInt, []arrival{{t: 0, op: "below", arg: "1"}, {t: 1, op: "below", arg: "-1"}}, math.MinInt},
+		{math.MinInt, []arrival{{t: 0, op: "above", arg: "0"}, {t: 1, op: "above", arg: "2"}}, math.MaxInt},
+	} {
+		r.Case(0)
+		n := 3
+		w := &wmWorld{r: r, m: newCounterMon(c.v0), pending: make([]*arrival, n), res: make([][]byte, n), cb: make([][]byte, n)}
+		for j := 0; j < n; j++ {
+			w.actors = append(w.actors, newActor())
+		}
+		r.Line(fmt.Sprintf("wm 3 %d counter", c.v0), "ok")
+		for _, a := range append(c.waits, arrival{t: 2, op: "set", arg: strconv.Itoa(c.set)}) {
+			r.Line(fmt.Sprintf("w %d %s | %s", a.t, opLine(a), w.arrive(a)), "ok")
+		}
+		r.Count("counter-op:set-extreme")
+		r.Nontrivial(fmt.Sprintf("counter-extreme:%d", i))
+		if !w.dead {
+			w.releaseAll(r)
+		}
+		retire(w.actors)
+		r.Sample(r.CaseLines())
+	}
+}
+
 // corpus: hand-written arrival orders that run first (the ones the statement names, and past findings).
 func corpus(r *hx.Run) {
 	sm := func(n int, s string) {
@@ -194,6 +231,7 @@ func corpus(r *hx.Run) {
 	seqCase(r, "dagc", []string{"lock:7", "runlock:7"})
 	seqCase(r, "dagc", []string{"rlock:1,2", "runlock:2,1", "runlock:1"})
 	gapCorpus(r)
+	extremeCounterCorpus(r)
 	dg := func(n, e int, as ...arrival) { runDagCase(r, 0, n, e, as, 3, false) }
 	dg(3, 3, arrival{0, "lock", "0"}, arrival{1, "lock", "1"}, arrival{2, "rlock", "0,1"}, arrival{0, "unlock", "0"}, arrival{1, "unlock", "1"}) // the example of dagmutex.go
 	dg(3, 2, arrival{0, "rlock", "0,1"}, arrival{1, "lock", "1"}, arrival{2, "rlock", "1"}, arrival{0, "runlock", "1,0"})
